@@ -83,7 +83,7 @@ pub fn baseline_of(s: &str) -> Baseline {
     match s { "0" => Baseline::Top, "1" => Baseline::Bottom, "2" => Baseline::Middle, _ => Baseline::Alphabetic }
 }
 pub fn big() -> Rectangle {
-    Rectangle::new(Point::new(-(1 << 30), -(1 << 30)), Size::new(1 << 31, 1 << 31))
+    Rectangle::new(Point::new(-(1 << 30), -(1 << 30)), Size::new((1 << 31) - 1, (1 << 31) - 1))
 }
 pub fn kinds(log: &[Call]) -> String {
     log.iter().map(|c| match c { Call::DrawIter(_) => 'I', Call::FillContiguous(..) => 'C', Call::FillSolid(..) => 'S', Call::Clear(_) => 'X' }).collect()
